@@ -424,6 +424,38 @@ func c20Machine(t *rapid.T, report func(msg string, log []string)) {
 			w.sets[si].ld.setFail(n, on)
 			w.logf("set%d: %s unloadable=%v", si, n, on)
 		},
+		"RenderShortcut": func(t *rapid.T) {
+			// the Render* shortcuts of a set work with THAT set's globals, options, bans and loader,
+			// and they leave the cache alone
+			si := pickSet()
+			s := w.sets[si]
+			kind := pick(t, "shortcut", []string{"String", "Bytes", "File"})
+			n := pickName()
+			var out string
+			var err error
+			c20Begin("set%d.RenderTemplate%s(%s)", si, kind, n)
+			switch kind {
+			case "String":
+				out, err = s.set.RenderTemplateString(c20Content(n, 7), nil)
+			case "Bytes":
+				out, err = s.set.RenderTemplateBytes([]byte(c20Content(n, 7)), nil)
+			default:
+				out, err = s.set.RenderTemplateFile(n, nil)
+			}
+			w.logf("set%d.RenderTemplate%s(%s) -> err=%v", si, kind, n, err != nil)
+			gen, ok := 7, !(si == 0 && n == "/c.tpl")
+			if kind == "File" {
+				gen, ok = w.gens[n], w.loadable(si, n)
+			}
+			switch {
+			case !ok && err == nil:
+				fail(fmt.Errorf("set%d.RenderTemplate%s(%s) rendered %q although this set cannot load / compile it", si, kind, n, out))
+			case ok && err != nil:
+				fail(fmt.Errorf("set%d.RenderTemplate%s(%s): %v", si, kind, n, err))
+			case ok && out != c20Expect(s, n, gen):
+				fail(fmt.Errorf("set%d.RenderTemplate%s(%s) rendered %q, want %q (this set's globals / options, content generation %d)", si, kind, n, out, c20Expect(s, n, gen), gen))
+			}
+		},
 		"ConcurrentSame": func(t *rapid.T) {
 			fail(w.concurrentSame(pickSet(), pickName(), drawInt(t, 2, 16, "k")))
 		},
@@ -503,7 +535,7 @@ type c20Dummy struct {
 
 var c20Spec = register(&propSpec{
 	ID:   "C20.cache",
-	Rule: "rapid state machine over 1-2 template sets (own recording loader, globals, TrimBlocks option, set 0 bans a filter) x 3 names addressed through aliases that resolve to the same file: FromCache, CleanCache(), CleanCache(names), toggle Debug, change content, make a file unloadable/restore, k=2-16 goroutines issuing the same FromCache behind a barrier (exact oracle: one fetch, one instance), mixed FromCache/CleanCache batches (order-independent bounds); after every step every entry the model holds must still be served without a fetch in every set. Compared with a map model incl. loader fetch counts and rendered content generation. Non-trivial: FromCache after a clean / failed load, or a concurrent batch; distinct by operation log.",
+	Rule: "rapid state machine over 1-2 template sets (own recording loader, globals, TrimBlocks option, set 0 bans a filter) x 3 names addressed through aliases that resolve to the same file: FromCache, CleanCache(), CleanCache(names), toggle Debug, RenderTemplateString/Bytes/File (this set's globals, options, bans, loader), change content, make a file unloadable/restore, k=2-16 goroutines issuing the same FromCache behind a barrier (exact oracle: one fetch, one instance), mixed FromCache/CleanCache batches (order-independent bounds); after every step every entry the model holds must still be served without a fetch in every set. Compared with a map model incl. loader fetch counts and rendered content generation. Non-trivial: FromCache after a clean / failed load, or a concurrent batch; distinct by operation log.",
 	New:  func() any { return &c20Dummy{} },
 	Check: func(c any, r *Rec) error {
 		return skipf("histories are replayed through rapid's fail file, not through a descriptor")
